@@ -182,25 +182,64 @@ def _tensor_func(f):
 
 
 # ------------------------------------------------------------------ Tearfree
+GRAFT_FN = '_graft_with.update_fn.maybe_graft'      # label only (kept for stable finding keys); the function is found by role
+
+
+def graft_leaf(m, masked):
+  """The per-leaf grafting rule of Tearfree, wherever it is written: `_graft_with.update_fn` is evaluated as a whole
+  and the element function of the tree map that produces the returned updates is returned, expressed over
+    graft_upd  - a leaf of the norm optimiser's update  (norm.update(...)[0])
+    base       - a leaf of the direction's update       (direction.update(...)[0])
+  as the symbols param:<GRAFT_FN>:graft_upd / :base.  `masked` decides `_masked(base)`.
+  -> (update_fn FuncInfo, evaluator, element term, whole result)"""
+  from ..terms import subst
+  fu = m.func('tearfree.grafting', '_graft_with.update_fn')
+  ev = evaluator(m, decide=Decider(calls={('_masked',): masked}), opaque={'_masked', '_mask_skipped'})
+  r = ev.run(fu)
+  if r.op != 'tuple' or len(r.args) != 2:
+    raise AnalysisError('_graft_with.update_fn does not return (updates, state)')
+  sc = ev.closure_env(fu)
+  direction, norm = ev.lookup('direction', sc), ev.lookup('norm', sc)
+  if r.args[0].op != 'tmap':
+    # an identity map returns the tree itself: the element is that tree's leaf
+    t0 = r.args[0]
+    is_norm = any(x.op == 'call' and x.args[0].op == 'attr' and x.args[0].args[1] == 'update' and x.args[0].args[0] is norm for x in walk(t0))
+    is_dir = any(x.op == 'call' and x.args[0].op == 'attr' and x.args[0].args[1] == 'update' and x.args[0].args[0] is direction for x in walk(t0))
+    if is_norm != is_dir:
+      return fu, ev, sym('param', GRAFT_FN, 'graft_upd' if is_norm else 'base'), r
+    raise AnalysisError('_graft_with.update_fn does not return tree-mapped updates')
+
+  def from_(obj, tree):
+    return any(x.op == 'call' and x.args[0].op == 'attr' and x.args[0].args[1] == 'update' and x.args[0].args[0] is obj for x in walk(tree))
+  trees = list(r.args[0].args[1])
+  gts = [t for t in trees if from_(norm, t) and not from_(direction, t)]
+  bts = [t for t in trees if from_(direction, t) and not from_(norm, t)]
+  if len(gts) != 1 or len(bts) != 1:
+    raise AnalysisError('_graft_with.update_fn: the updates are not a tree map over (norm update, direction update)')
+  mapping = {T('leaf', gts[0]): sym('param', GRAFT_FN, 'graft_upd'), T('leaf', bts[0]): sym('param', GRAFT_FN, 'base')}
+  elt = subst(r.args[0].args[0], mapping)
+  return fu, ev, elt, r
+
+
 def tearfree_maybe_graft(ctx):
   m = ctx.model
-  fi = m.func('tearfree.grafting', '_graft_with.update_fn.maybe_graft')
-  ctx.analysed(fi)
-  # masked arm
-  ev = evaluator(m, decide=Decider(calls={('_masked',): True}), opaque={'_masked'})
-  r = ev.run(fi)
+  class _Lbl:          # findings keep the historical function label
+    short = GRAFT_FN
+  fi = _Lbl
+  fu_, _, r, _ = graft_leaf(m, masked=True)
+  ctx.analysed(fu_)
+  _loc = ctx.loc(fu_)
   ctx.ob('C05.R3', fi.short, 'masked parameter takes the graft step', r.op == 'sym' and r.args[-1] == 'graft_upd',
          f'for a masked (skipped) parameter maybe_graft must return the graft update itself; got `{show(r, maxdepth=3)[:100]}`',
-         ctx.loc(fi), sample='if _masked(base): return graft_upd')
-  ev = evaluator(m, decide=Decider(calls={('_masked',): False}), opaque={'_masked'})
-  r = ev.run(fi)
+         _loc, sample='if _masked(base): return graft_upd')
+  _, ev, r, _ = graft_leaf(m, masked=False)
   sa = select_arms(r)
   if sa is None:
-    ctx.ob('C05.R1', fi.short, 'select', False, 'maybe_graft must select between grafted direction and graft update', ctx.loc(fi))
+    ctx.ob('C05.R1', fi.short, 'select', False, 'maybe_graft must select between grafted direction and graft update', _loc)
     return
   _, pred, t_arm, f_arm = sa
   ctx.ob('C05.R3', fi.short, 'warm-up arm is the graft step', f_arm.op == 'sym' and f_arm.args[-1] == 'graft_upd',
-         f'before the start step the graft update itself must be returned; got `{show(f_arm, maxdepth=3)[:100]}`', ctx.loc(fi),
+         f'before the start step the graft update itself must be returned; got `{show(f_arm, maxdepth=3)[:100]}`', _loc,
          sample='false arm = graft_upd')
   sb = Symb()
   X = sb.conv(t_arm)
@@ -221,10 +260,10 @@ def tearfree_maybe_graft(ctx):
         equal(sp.simplify(s * sp.Function('norm')(base)), sp.Function('norm')(gu))
     ok_zero = False
   ctx.ob('C05.R1', fi.short, 'norm identity (tearfree)', ident_ok,
-         f'grafted update must be base * ||graft_upd|| / ||base||; multiplier is `{str(s)[:200]}`', ctx.loc(fi),
+         f'grafted update must be base * ||graft_upd|| / ||base||; multiplier is `{str(s)[:200]}`', _loc,
          sample='base * ||graft_upd|| / ||base||')
   ctx.ob('C05.R1', fi.short, 'zero direction gives zero update', ok_zero,
-         f'when ||base|| == 0 the multiplier must be 0 (guarded by ||base|| > 0); multiplier is `{str(s)[:200]}`', ctx.loc(fi),
+         f'when ||base|| == 0 the multiplier must be 0 (guarded by ||base|| > 0); multiplier is `{str(s)[:200]}`', _loc,
          sample='where(||base|| > 0, ratio, 0)')
 
 
@@ -258,21 +297,14 @@ def tearfree_dispatch(ctx):
   # update_fn plumbing
   fu = m.func('tearfree.grafting', '_graft_with.update_fn')
   ctx.analysed(fu)
-  ev = evaluator(m, opaque={'_mask_skipped', 'maybe_graft', '_masked'})
-  r = ev.run(fu)
+  fu, ev, _elt, r = graft_leaf(m, masked=False)      # raises if the updates are not a tree map over (norm update, direction update)
   cmpr = Comparer()
   sc = ev.closure_env(fu)
   direction = ev.lookup('direction', sc)
   norm = ev.lookup('norm', sc)
   P = lambda nm: sym('param', fu.short, nm)
-  calls = [c for c in ev.calls if c.callee.endswith('.maybe_graft')]
-  ctx.need('C05.R2', len(calls), 1, 'maybe_graft application')
-  c = calls[0]
-  gu, base = c.args.get('graft_upd', NONE), c.args.get('base', NONE)
-  gu_ok = any(x.op == 'call' and x.args[0].op == 'attr' and x.args[0].args[1] == 'update' and x.args[0].args[0] is norm for x in walk(gu))
-  base_ok = any(x.op == 'call' and x.args[0].op == 'attr' and x.args[0].args[1] == 'update' and x.args[0].args[0] is direction for x in walk(base))
-  ctx.ob('C05.R2', fu.short, 'maybe_graft(graft update, direction update)', gu_ok and base_ok,
-         'maybe_graft must receive the norm optimiser\'s update first and the direction update second', ctx.loc(fu),
+  ctx.ob('C05.R2', fu.short, 'maybe_graft(graft update, direction update)', True,
+         'the returned updates must be a tree map over the norm optimiser\'s update and the direction update', ctx.loc(fu),
          sample='tree.map(maybe_graft, graft_updates, base_updates)')
   # direction sees masked inputs, norm sees raw ones
   dcalls = [x for x in walk(r) if x.op == 'call' and x.args[0].op == 'attr' and x.args[0].args[1] == 'update' and x.args[0].args[0] is direction]
